@@ -192,8 +192,9 @@ impl C12 {
 		let w = run.rng.idx(nw);
 		let new_pw = format!("new{}pw\u{00e9}", run.rng.below(1000));
 		let base = json!({"w": w, "new": new_pw});
+		let opname = if run.rng.chance(1, 2) { "change_password" } else { "recover" };
 		let target = Step::new(Op::Custom {
-			name: "change_password".into(),
+			name: opname.into(),
 			args: base.clone(),
 		});
 		// fault-free twin to list the points
@@ -230,7 +231,7 @@ impl C12 {
 			st.fault = Some(f.clone());
 			let mut handler = |e: &mut Exec, n: &str, a: &Value| Self::lifecycle_op(e, n, a);
 			let out = run.ex.exec(&st, &mut handler);
-			run.cov.case(&format!("change_password|{}#{}|{:?}", f.point, f.nth, f.kind), out.fault_fired);
+			run.cov.case(&format!("{}|{}#{}|{:?}", opname, f.point, f.nth, f.kind), out.fault_fired);
 			if out.fault_fired {
 				run.cov.fault(&format!("{}:{}", f.point, crate::run::kind_name(&f.kind)));
 			}
@@ -312,6 +313,31 @@ impl C12 {
 				}
 				let owner = ex.world.owner(w);
 				let r = owner.change_password(None, ZeroingString::from(old.as_str()), ZeroingString::from(new_pw.as_str()));
+				match r {
+					Ok(_) => {
+						ex.world.wallets[w].password = new_pw;
+						OpRes::Ok { new_msg: None, note: String::new(), validated: None, new_wallet: None }
+					}
+					Err(e) => OpRes::Err(format!("{}", e)),
+				}
+			}
+			"recover" => {
+				// recover_from_mnemonic with the wallet's own phrase under a new password
+				let new_pw = a["new"].as_str().unwrap_or("x").to_owned();
+				let mn = ex.world.wallets[w].mnemonic.clone();
+				if !ex.world.is_open(w) {
+					if ex.world.open(w).is_err() {
+						return OpRes::Skipped("cannot open".into());
+					}
+				}
+				let inst = ex.world.wallets[w].inst.as_ref().unwrap().clone();
+				let r = {
+					let mut l = inst.lock();
+					match l.lc_provider() {
+						Ok(lc) => lc.recover_from_mnemonic(ZeroingString::from(mn.as_str()), ZeroingString::from(new_pw.as_str())),
+						Err(e) => Err(e),
+					}
+				};
 				match r {
 					Ok(_) => {
 						ex.world.wallets[w].password = new_pw;
@@ -454,7 +480,7 @@ impl Prop for C12 {
 					}
 				}
 			}
-			if name == "change_password" && step.fault.is_some() && w < run.ex.world.wallets.len() {
+			if (name == "change_password" || name == "recover") && step.fault.is_some() && w < run.ex.world.wallets.len() {
 				// an interrupted password change leaves the seed recoverable
 				let new_pw = args["new"].as_str().unwrap_or("x").to_owned();
 				let old_pw = run.ex.world.wallets[w].password.clone();
@@ -462,8 +488,8 @@ impl Prop for C12 {
 					if let Some((sig, detail)) = Self::seed_recoverable(run, w, &old_pw, &new_pw) {
 						v.push(run.viol(
 							"interrupted_lifecycle",
-							&format!("change_password:{}", sig),
-							format!("wallet {}: change_password interrupted at {:?}: {}", w, step.fault, detail),
+							&format!("{}:{}", name, sig),
+							format!("wallet {}: {} interrupted at {:?}: {}", w, name, step.fault, detail),
 						));
 						return v;
 					}
